@@ -55,6 +55,23 @@ Theorem app_framing_exact : forall bs, Forall wf_block bs -> app_frames (concat 
 Proof. exact app_framing_exact_lemma. Qed.
 Print Assumptions app_framing_exact.
 
+(* Sender side (StreamFace.Send).  Model obligation: Send is atomic per packet (the segments of a wire reach the connection
+   contiguously), i.e. the stream is the concatenation of whole packets in some order.  Then the receiving face hands up
+   exactly those packets.  The obligation itself is checked on the real code by concurrent Send calls over a gated pipe. *)
+Theorem send_atomic_delivers : forall (pkts : list (list bytes)),
+  Forall (fun segs => wf_block (concat segs)) pkts ->
+  app_frames (concat (map (@concat byte) pkts)) = (AEnd true, map (@concat byte) pkts).
+Proof. exact send_atomic_delivers_lemma. Qed.
+Print Assumptions send_atomic_delivers.
+
+(* ... and it is needed: one single-segment packet written between the two segments of another splits the blocks. *)
+Theorem send_not_atomic_splits :
+  let big := [[6; 4; 1; 2]; [3; 4]] in let small := [[5; 1; 9]] in
+  snd (app_frames (concat [nth 0 big []; concat small; nth 1 big []])) <> [concat big; concat small] /\
+  snd (app_frames (concat [nth 0 big []; concat small; nth 1 big []])) <> [concat small; concat big].
+Proof. exact send_interleaved_splits. Qed.
+Print Assumptions send_not_atomic_splits.
+
 (* Outside the statement ("well-formed" = shortest forms): a non-minimal number form is mis-framed. Recorded, not a violation. *)
 Theorem nonminimal_form_misframed :
   exists stream sched, snd (fst (fst (run true stream sched))) = [[253;0;6]] /\ stream = [253;0;6; 1; 170].
